@@ -150,7 +150,7 @@ Definition elem_ok (k' n : nat) (dz : Z) (sp : srcp) (bd : body) (rb : list Z ->
     if desc then raw_ok k' n dz sp bd rb (S lvl) p (sub_of (snd cb)) (sub_of tb) [] else leaf
   | Some tb, Some ta =>
     if desc then raw_ok k' n dz sp bd rb (S lvl) p (sub_of (snd cb)) (sub_of tb) (sub_of ta)
-    else leaf || refb || tree_eqb tb ta
+    else (leaf && negb (is_empty dz ta)) || refb || tree_eqb tb ta
   end.
 
 Lemma raw_ok_S k' n dz sp bd rb lvl path aes zb za :
@@ -360,6 +360,7 @@ Section Nest.
           = apply_wr (wr_elem k' n sp bd lvl path c bp q') (lookup_i dz (c :: q') es))
     /\ (forall t, assoc c es = None -> assoc c es3 = Some t -> i_is_empty dz t = false)
     /\ (forall t, assoc c es3 = Some t -> t <> ILeaf dz)
+    /\ (forall t, assoc c es3 = Some t -> i_is_empty dz t = false)
     /\ map ev3 (snd r) = ev_elem k' n dz sp bd lvl path (efib es) (c, bp).
   Proof.
     intros Hleaf Hwf. cbv zeta. unfold step2.
@@ -402,6 +403,9 @@ Section Nest.
     { intros t _ Ht. rewrite Ha3, Z.eqb_refl, Hrm in Ht. destruct (v' =? dz) eqn:E; [discriminate|].
       inversion Ht; subst t. cbn [i_is_empty]. exact E. }
     split; [exact Hnd|].
+    split.
+    { intros t Ht. rewrite Ha3, Z.eqb_refl, Hrm in Ht. destruct (v' =? dz) eqn:E; [discriminate|].
+      inversion Ht; subst t. cbn [i_is_empty]. exact E. }
     cbn [map]. unfold ev_elem, ev3 at 1. cbn [e_path e_a e_z fst snd]. rewrite Hleaf.
     rewrite lookup_efib.
     assert (Hez : match option_map erase (assoc c es) with Some t => t | None => z_default n dz lvl end
@@ -586,7 +590,7 @@ Section Nest.
   Proof.
     intros Hlt Hwf Hbp. destruct (Nat.eqb (S lvl) n) eqn:Hleaf.
     - pose proof (step2_leaf plug c bp es nx rk Hleaf Hwf) as H. cbv zeta in *.
-      destruct H as (H1 & H2 & H3 & H4 & _ & H6).
+      destruct H as (H1 & H2 & H3 & H4 & _ & H5 & H6).
       split; [exact H1|]. split; [exact H2|]. split; [exact H3|].
       split; [intros t Ha Ht; left; exact (H4 t Ha Ht)|]. split; [|exact H6].
       unfold elem_ok. cbn [fst snd]. rewrite Hleaf. cbn [negb]. rewrite andb_false_r.
@@ -595,8 +599,9 @@ Section Nest.
       rewrite Hd. rewrite !lookup_efib.
       destruct (assoc c es) as [p0|] eqn:Ha; cbn [option_map];
         destruct (assoc c (fst (fst (fst (step2 n dz bd inner lvl path plug c bp es nx rk))))) as [t|] eqn:Ht;
-        cbn [option_map orb]; try reflexivity.
-      rewrite is_empty_erase, (H4 t eq_refl eq_refl). cbn [negb]. rewrite orb_true_r. reflexivity.
+        cbn [option_map orb andb]; try reflexivity.
+      + rewrite is_empty_erase, (H5 t eq_refl). reflexivity.
+      + rewrite is_empty_erase, (H4 t eq_refl eq_refl). cbn [negb]. rewrite orb_true_r. reflexivity.
     - exact (step2_node plug c bp es nx rk Hleaf Hwf Hbp).
   Qed.
 
